@@ -469,6 +469,9 @@ func ruleC06Dispatch(r *Run) {
 	route, allowed := extractOf(q, 0), extractOf(q, 2)
 	// method argument is the request's method
 	methOK := strings.HasSuffix(canon(qcalls[0].Common().Args[1]), ".Req.Method")
+	if fs, isReq := w.reqAccess(qcalls[0].Common().Args[1]); isReq && len(fs) == 1 && fs[0] == "Method" {
+		methOK = true
+	}
 	r.Check(rule, "(*Router).handleHTTPRequest:method", w.InstrPos(qcalls[0]), methOK, "routes are matched under the request's own method")
 	keyAllowed, _ := constString(w.Const("rux", "CTXAllowedMethods").Value)
 	for si, sk := range callsToFn(disp, setH) {
@@ -613,20 +616,28 @@ func ruleC06Dispatch(r *Run) {
 		}
 	}
 	var allowSet ssa.Instruction
-	for _, c := range callsIn(h405, func(c ssa.CallInstruction) bool {
+	allowVal := func(c ssa.CallInstruction) ssa.Value {
 		if sc := staticCallee(c); sc != nil && FuncName(sc) == "(*Context).SetHeader" {
-			k, ok := constString(c.Common().Args[1])
-			return ok && k == "Allow"
+			if k, ok := constString(c.Common().Args[1]); ok && k == "Allow" {
+				return c.Common().Args[2]
+			}
 		}
-		return false
-	}) {
+		// the helper written out: c.Resp.Header().Set("Allow", v)
+		if calleeName(c) == "(net/http.Header).Set" {
+			if k, ok := constString(c.Common().Args[1]); ok && k == "Allow" {
+				return c.Common().Args[2]
+			}
+		}
+		return nil
+	}
+	for _, c := range callsIn(h405, func(c ssa.CallInstruction) bool { return allowVal(c) != nil }) {
 		allowSet = c.(ssa.Instruction)
 	}
 	okSort := allowSet != nil && len(sorts) == 1 && dominates(sorts[0], allowSet)
 	r.Check(rule, "internal405Handler:sorted Allow", h405.Pos(), okSort, map[bool]string{true: "the allowed set is sorted before the Allow header is written", false: "Allow header written from an unsorted set (or not written)"}[okSort])
 	if okSort {
 		// the header value is the joined sorted slice
-		jv := allowSet.(*ssa.Call).Call.Args[2]
+		jv := allowVal(allowSet.(*ssa.Call))
 		okJoin := false
 		if jc, ok := jv.(*ssa.Call); ok && calleeName(jc) == "strings.Join" && jc.Call.Args[0] == sortedArg(sorts[0]) {
 			okJoin = true
@@ -638,6 +649,11 @@ func ruleC06Dispatch(r *Run) {
 			if ta, ok := src.(*ssa.TypeAssert); ok {
 				if c, ok := ta.X.(*ssa.Call); ok && len(c.Call.Args) == 2 {
 					k, okc := constString(c.Call.Args[1])
+					return okc && k == keyAllowed
+				}
+				// read straight from the context's data map
+				if lk, ok := ta.X.(*ssa.Lookup); ok && isLoadOfField(lk.X, w.Field("rux", "Context", "data")) {
+					k, okc := constString(lk.Index)
 					return okc && k == keyAllowed
 				}
 			}
@@ -663,8 +679,13 @@ func ruleC06Dispatch(r *Run) {
 		if !ok {
 			return
 		}
-		if sc := staticCallee(c); sc != nil && (FuncName(sc) == "(*Context).SetStatus" || FuncName(sc) == "(*Context).SetStatusCode") {
+		if sc := staticCallee(c); sc != nil && (FuncName(sc) == "(*Context).SetStatus" || FuncName(sc) == "(*Context).SetStatusCode" || FuncName(sc) == "(*responseWriter).WriteHeader") {
 			if v, okc := constInt(c.Call.Args[1]); okc && v == 200 && factHolds(in, isOpt) {
+				ok200 = true
+			}
+		}
+		if c.Call.IsInvoke() && c.Call.Method.Name() == "WriteHeader" && isLoadOfField(c.Call.Value, w.Field("rux", "Context", "Resp")) {
+			if v, okc := constInt(c.Call.Args[0]); okc && v == 200 && factHolds(in, isOpt) {
 				ok200 = true
 			}
 		}
